@@ -168,3 +168,57 @@ Example C15_nonvacuous :
   | None => False
   end.
 Proof. vm_compute. repeat split; try reflexivity; discriminate. Qed.
+
+(* ---- the main theorems applied: every hypothesis of C15_apply_output_wellformed (with its nesting
+   hypothesis and a non-empty white-space indent) and of C15_apply_output_is_rfc_result discharged on the
+   document and patch of C15_nonvacuous (names and values with < > &), EscapeHTML on, indent of two spaces:
+   the bytes ApplyIndent returns are read back as the escaped result tree, the scanner accepts them, their
+   value is the RFC 6902 result, and they are Indent of the bytes Apply returns. ---- *)
+From JP Require PointerDomain.
+Definition C15_ex_doc := B "{""x>"":""<""}".
+Definition C15_ex_patch := B "[{""op"":""add"",""path"":""/k<"",""value"":""a&b""}]".
+Definition C15_ex_o := mkOpts true 0 false false true [] None.
+Definition C15_ex_ind := B "  ".
+Definition C15_ex_t : tjson := Eval vm_compute in match parse C15_ex_doc with Some t => t | None => TNull end.
+Definition C15_ex_p : list operation := Eval vm_compute in match api_decode C15_ex_patch with Some p => p | None => [] end.
+Definition C15_ex_out : bytes :=
+  Eval vm_compute in match api_apply C15_ex_o C15_ex_ind C15_ex_p C15_ex_doc with ROut out => out | _ => [] end.
+Definition C15_ex_result : ojson := OObj [(B "x>", OStr (B "<")); (B "k<", OStr (B "a&b"))].
+
+Example C15_main_theorem_applies :
+  (exists tr, result_tree C15_ex_o C15_ex_p C15_ex_t = Some tr /\ C15_ex_out = output C15_ex_o C15_ex_ind tr /\
+     tok tr /\ root_shape tr /\
+     parse C15_ex_out = Some (escape_tree true tr) /\ valid_gen C15_ex_out = true /\
+     (exists t', parse C15_ex_out = Some t' /\ den t' = den tr) /\
+     (exists out0, api_apply C15_ex_o [] C15_ex_p C15_ex_doc = ROut out0 /\ indent_go C15_ex_ind out0 = Some C15_ex_out)) /\
+  (exists out t', api_apply C15_ex_o C15_ex_ind C15_ex_p C15_ex_doc = ROut out /\ parse out = Some t' /\
+     den t' = C15_ex_result /\ valid_gen out = true).
+Proof.
+  assert (P : parse C15_ex_doc = Some C15_ex_t) by (vm_compute; reflexivity).
+  assert (E : api_decode C15_ex_patch = Some C15_ex_p) by (vm_compute; reflexivity).
+  assert (A : api_apply C15_ex_o C15_ex_ind C15_ex_p C15_ex_doc = ROut C15_ex_out) by (vm_compute; reflexivity).
+  assert (OT : Forall op_tok C15_ex_p) by exact (C15_decoded_patch_values _ _ E).
+  split.
+  - destruct (C15_apply_output_wellformed C15_ex_o C15_ex_ind C15_ex_p C15_ex_doc C15_ex_t C15_ex_out P OT A)
+      as [tr [R [O [T [Sh G]]]]].
+    assert (D : (Text.tdepth tr <= max_depth)%N).
+    { vm_compute in R. injection R as <-. vm_compute. discriminate. }
+    destruct (G D) as [G1 G2]. destruct (G1 eq_refl) as [P1 [V X]].
+    exists tr. split; [exact R|]. split; [exact O|]. split; [exact T|]. split; [exact Sh|].
+    split; [exact P1|]. split; [exact V|]. split; [exact X|]. apply G2. discriminate.
+  - pose proof (C15_apply_output_is_rfc_result C15_ex_o C15_ex_ind C15_ex_p C15_ex_doc C15_ex_t) as H.
+    assert (R : rfc_apply (dia C15_ex_o) (den C15_ex_t) (map den_op C15_ex_p) = Done C15_ex_result) by (vm_compute; reflexivity).
+    rewrite R in H.
+    destruct H as [out [t' [H1 [H2 [H3 [H4 _]]]]]].
+    + repeat split.
+    + exact P.
+    + reflexivity.
+    + vm_compute; reflexivity.
+    + apply (PointerDomain.decoded_in_domain_op_dom C15_ex_patch); [exact E | vm_compute; reflexivity | vm_compute; reflexivity].
+    + exact OT.
+    + vm_compute; reflexivity.
+    + reflexivity.
+    + vm_compute. discriminate.
+    + exists out, t'. split; [exact H1|]. split; [exact H2|]. split; [exact H3 | exact H4].
+Qed.
+Print Assumptions C15_main_theorem_applies.
